@@ -360,4 +360,110 @@ Proof.
   destruct full as [f|]; [destruct (fst x - f <=? 65534)%N|]; cbn [fst];
     rewrite ?app_length, ?enc_section_length, ?(enc_line_length _ _ Hp); lia.
 Qed.
+
+(* the last full timestamp of an encoding is not after its last line *)
+Lemma full_after_le_last : forall l full f', ok_from full l -> full_after full l = Some f' ->
+  forall x, last_opt l = Some x -> (f' <= fst x)%N.
+Proof.
+  induction l as [|y t IH]; intros full f' OK FA x LO; [discriminate|].
+  cbn [ok_from] in OK. destruct OK as (_ & _ & Hf & Hn & OK'). cbn [full_after] in FA.
+  destruct t as [|z t'].
+  - cbn [full_after] in FA. cbn [last_opt last] in LO. inversion LO; subst x.
+    unfold tail_bytes in FA. destruct full as [f|]; [destruct (fst y - f <=? MAXD)%N|]; cbn [snd] in FA; inversion FA; subst; lia.
+  - eapply IH; [exact OK'|exact FA|]. cbn [last_opt] in *. rewrite Layout.last_cons in LO. exact LO.
+Qed.
+
+(* ---- appending one line to any legal region (not only canonical ones) ---- *)
+Lemma fscan_eta (s:fscan) : s = mk (f_st s) (f_idx s) (f_lines s) (f_secs s) (f_good s) (f_sec_start s).
+Proof. destruct s; reflexivity. Qed.
+
+Lemma scan_app_aligned a b : length a mod L = 0 ->
+  scan p (a ++ b) = fold_left (fstep p) (chunks L b) (scan p a).
+Proof. intros H. unfold scan. rewrite chunks_app_aligned by (try lia; exact H). apply fold_left_app. Qed.
+
+Lemma fstep_idx s x : f_idx (fstep p s x) = S (f_idx s).
+Proof.
+  unfold fstep. destruct (f_st s); try reflexivity;
+    repeat match goal with |- context [if ?c then _ else _] => destruct c end; reflexivity.
+Qed.
+Lemma fold_idx : forall ls s, f_idx (fold_left (fstep p) ls s) = f_idx s + length ls.
+Proof. induction ls as [|x t IH]; intros s; cbn [fold_left length]; [lia|]. rewrite IH, fstep_idx. lia. Qed.
+Lemma scan_idx region : f_idx (scan p region) = length (chunks L region).
+Proof. unfold scan. rewrite fold_idx. reflexivity. Qed.
+
+(* legal: line-aligned and the decoder ends outside a section, right after a data line (or empty) *)
+Definition legal (region:list byte) (full:option N) : Prop :=
+  length region mod L = 0 /\ f_st (scan p region) = st_of full /\ f_good (scan p region) = f_idx (scan p region).
+
+Lemma legal_nil : legal [] None.
+Proof. unfold legal, scan. rewrite chunks_nil. cbn. repeat split; apply Nat.mod_0_l; lia. Qed.
+
+Definition line_ok (full:option N) (x:line) : Prop :=
+  length (snd x) = p /\ (fst x < 2^64)%N /\ match full with Some f => (f <= fst x)%N | None => True end.
+
+Theorem scan_push region full x : legal region full -> line_ok full x ->
+  let tb := tail_bytes p full x in
+  let s := scan p region in
+  scan p (region ++ fst tb)
+  = mk (st_of (snd tb)) (f_idx s + slots_from full [x]) (x :: f_lines s)
+       (rev (secs_from full (f_idx s) [x]) ++ f_secs s) (f_idx s + slots_from full [x])
+       (match rev (secs_from full (f_idx s) [x]) with [] => f_sec_start s | e :: _ => N.to_nat (snd e) / L end).
+Proof.
+  intros (Al & St & Gd) (Hp & Ht & Hf). cbn zeta.
+  rewrite scan_app_aligned by exact Al.
+  rewrite (fscan_eta (scan p region)), St.
+  assert (E : fst (tail_bytes p full x) = encode_from p full [x]).
+  { cbn [encode_from]. destruct (tail_bytes p full x). cbn [fst]. rewrite app_nil_r. reflexivity. }
+  rewrite E.
+  assert (OK : ok_from full [x]). { cbn [ok_from]. repeat split; try assumption. }
+  pose proof (scan_encode_from [x] full (f_idx (scan p region)) (f_lines (scan p region)) (f_secs (scan p region))
+                (f_good (scan p region)) (f_sec_start (scan p region)) OK) as H.
+  etransitivity; [exact H|]. cbn [full_after rev app f_idx f_lines f_secs f_sec_start mk]. reflexivity.
+Qed.
+
+Corollary legal_push region full x : legal region full -> line_ok full x ->
+  legal (region ++ fst (tail_bytes p full x)) (snd (tail_bytes p full x)).
+Proof.
+  intros Lg Ok. pose proof (scan_push region full x Lg Ok) as H. cbn zeta in H.
+  destruct Lg as (Al & St & Gd). destruct Ok as (Hp & Ht & Hf).
+  unfold legal. rewrite H. cbn [f_st f_good f_idx mk]. split; [|split; reflexivity].
+  rewrite app_length. destruct (tail_bytes_slots full x Hp) as (ls & E & F & _). rewrite E.
+  rewrite (concat_length_uniform L) by exact F.
+  rewrite Nat.add_mod by lia. rewrite Al, Nat.mod_mul by lia. cbn [Nat.add]. apply Nat.mod_0_l. lia.
+Qed.
+
+Corollary decode_push region full x l : legal region full -> line_ok full x -> decode p region = Some l ->
+  decode p (region ++ fst (tail_bytes p full x)) = Some (l ++ [x]).
+Proof.
+  intros Lg Ok D. pose proof (legal_push region full x Lg Ok) as (Al' & St' & Gd').
+  pose proof (scan_push region full x Lg Ok) as H. cbn zeta in H.
+  unfold decode in *. rewrite H in *. cbn [f_st f_good f_idx f_lines mk] in *.
+  assert (SN : exists f', snd (tail_bytes p full x) = Some f').
+  { unfold tail_bytes. destruct full as [f|]; [destruct (fst x - f <=? MAXD)%N|]; cbn [snd]; eauto. }
+  destruct SN as [f' SN]. rewrite SN. cbn [st_of].
+  rewrite Al', Nat.eqb_refl. cbn [andb].
+  assert (L0 : frev (f_lines (scan p region)) = l).
+  { destruct Lg as (Al & St & Gd). rewrite St in D. destruct full as [f|]; cbn [st_of] in D.
+    - rewrite Al, Gd, !Nat.eqb_refl in D. cbn [andb] in D. inversion D. reflexivity.
+    - destruct region; [inversion D; unfold scan; rewrite chunks_nil; reflexivity|discriminate]. }
+  rewrite Nat.eqb_refl. rewrite frev_rev in L0. rewrite frev_rev. cbn [rev]. rewrite L0. reflexivity.
+Qed.
+
+Corollary sections_push region full x : legal region full -> line_ok full x ->
+  sections p (region ++ fst (tail_bytes p full x))
+  = sections p region ++ secs_from full (length region / L) [x].
+Proof.
+  intros Lg Ok. pose proof (scan_push region full x Lg Ok) as H. cbn zeta in H.
+  unfold sections. rewrite H. cbn [f_secs mk]. rewrite !frev_rev, rev_app_distr, rev_involutive.
+  destruct Lg as (Al & _ & _). rewrite scan_idx, chunks_length_aligned by (try lia; exact Al). reflexivity.
+Qed.
+
+Corollary last_full_push region full x : legal region full -> line_ok full x ->
+  last_full p (region ++ fst (tail_bytes p full x)) = snd (tail_bytes p full x).
+Proof.
+  intros Lg Ok. pose proof (scan_push region full x Lg Ok) as H. cbn zeta in H.
+  unfold last_full. rewrite H. cbn [f_st mk]. destruct (snd (tail_bytes p full x)); reflexivity.
+Qed.
+Lemma legal_last_full region full : legal region full -> last_full p region = full.
+Proof. intros (_ & St & _). unfold last_full. rewrite St. destruct full; reflexivity. Qed.
 End F.
